@@ -116,14 +116,37 @@ fn c01(ctx: &mut Ctx) {
 #[derive(Clone, Copy, Debug, PartialEq, Eq)]
 pub enum M {
     Value, Point, Comm, CommOtherPoly,
-    BoundRelabel, BoundDrop, BoundAdd, BoundUnsupported,
+    BoundRelabel, BoundDrop, BoundAdd, BoundRelabelUnenforced,
     Witness, RandomV, RandomVToggle,
     VkG, VkGamma, VkH, VkBetaH, VkNegH,
 }
 pub const STATEMENT: &[M] = &[M::Value, M::Point, M::Comm, M::CommOtherPoly];
-pub const BOUNDS: &[M] = &[M::BoundRelabel, M::BoundDrop, M::BoundAdd, M::BoundUnsupported];
+pub const BOUNDS: &[M] = &[M::BoundRelabel, M::BoundDrop, M::BoundAdd, M::BoundRelabelUnenforced];
 pub const PROOF: &[M] = &[M::Witness, M::RandomV, M::RandomVToggle];
 pub const KEY: &[M] = &[M::VkG, M::VkGamma, M::VkH, M::VkBetaH, M::VkNegH];
+
+/// a degree bound the key was not trimmed for, by category: below the smallest enforced bound, in a
+/// gap between two enforced bounds, above the largest (up to D + 1); `None` if no such bound exists
+pub fn unenforced_bound(rng: &mut Rng, enforced: &[usize], big_d: usize) -> Option<(usize, &'static str)> {
+    let mut cats: Vec<(Vec<usize>, &'static str)> = vec![];
+    if enforced.is_empty() {
+        cats.push(((0..=big_d + 1).collect(), "no-bounds"));
+    } else {
+        let lo = enforced[0];
+        let hi = *enforced.last().unwrap();
+        let below: Vec<usize> = (0..lo).collect();
+        let between: Vec<usize> = (lo..hi).filter(|d| !enforced.contains(d)).collect();
+        let above: Vec<usize> = (hi + 1..=big_d + 1).collect();
+        if !below.is_empty() { cats.push((below, "below")); }
+        if !between.is_empty() { cats.push((between, "between")); }
+        if !above.is_empty() { cats.push((above, "above")); }
+    }
+    if cats.is_empty() { return None; }
+    // gaps first when there are any: they are the rarest category
+    let k = if cats.iter().any(|c| c.1 == "between") && coin(rng) { cats.iter().position(|c| c.1 == "between").unwrap() } else { range(rng, 0, cats.len() - 1) };
+    let (v, name) = &cats[k];
+    Some((v[range(rng, 0, v.len() - 1)], name))
+}
 
 /// Apply one mutation to an honest single-point transcript; returns (outcome, must_refuse).
 /// Every mutation is applied in scalar space, so the model decides the very same statement.
@@ -175,10 +198,13 @@ pub fn mutate(ctx: &mut Ctx, rng: &mut Rng, id: &str, c: &Case, cs0: &[CommS], v
             cs[i].bound = Some(d);
             must = !cs[i].c.is_zero() && d != big_d;
         }
-        // a bound the key has no G2 element for: refused with UnsupportedDegreeBound
-        M::BoundUnsupported => {
-            let d = (1..=big_d + 1).rev().find(|d| !enforced.contains(d))?;
-            cs[j].bound = Some(d);
+        // a bound the keys were NOT trimmed for — below the smallest enforced bound, in a gap between
+        // two enforced bounds, or above the largest: refused with UnsupportedDegreeBound
+        M::BoundRelabelUnenforced => {
+            let i = if bounded.is_empty() { j } else { bounded[range(rng, 0, bounded.len() - 1)] };
+            let (d, cat) = unenforced_bound(rng, &enforced, big_d)?;
+            cs[i].bound = Some(d);
+            ctx.rep.count(&format!("sonic/unenforced-{}", cat));
             must = true;
         }
         M::Witness => { w = Fr::rand(rng); must = false; }
@@ -241,8 +267,12 @@ fn c03(ctx: &mut Ctx) {
 fn c04(ctx: &mut Ctx) {
     let n = ctx.n(30, 400);
     mutation_run(ctx, "C04", BOUNDS, n);
+    let n = ctx.n(6, 100);
+    batch_mutations(ctx, "C04", n);
     let n = ctx.n(60, 600);
     admission(ctx, n);
+    let n = ctx.n(25, 300);
+    lc_bounds(ctx, "C04", n);
 }
 fn c05(ctx: &mut Ctx) {
     let n = ctx.n(14, 200);
@@ -254,6 +284,92 @@ fn c10(ctx: &mut Ctx) {
     mutation_run(ctx, "C10", &all, n);
     let n = ctx.n(5, 80);
     batch_mutations(ctx, "C10", n);
+    let n = ctx.n(10, 150);
+    lc_bounds(ctx, "C10", n);
+}
+
+// ------------------------------------------------------------------------------------------------
+// degree-bound labels through `open_combinations` / `check_combinations` (expectation only: the
+// linear-combination entry points are not part of this scheme model): honest single-term LCs are
+// accepted; the same transcript with the commitment presented under a bound the keys were not trimmed
+// for, or an unbounded commitment presented under an enforced bound, must not be
+// ------------------------------------------------------------------------------------------------
+fn lc_bounds(ctx: &mut Ctx, prop: &str, n: usize) {
+    use ark_poly_commit::{Evaluations, LabeledCommitment, LinearCombination, QuerySet};
+    for i in 0..n {
+        let id = format!("{}/sonic-model-lc/{}", prop, i);
+        if !ctx.selected(&id) { continue; }
+        let mut rng = rng_for(ctx.seed, &format!("{}/sonic-model-lc", prop), i as u64);
+        let npoly = range(&mut rng, 1, 3);
+        let c = match new_case(ctx, &mut rng, &id, npoly) { Some(c) => c, None => continue };
+        let enforced: Vec<usize> = c.ck.enforced_degree_bounds.clone().unwrap_or_default();
+        let bounded: Vec<usize> = (0..c.polys.len()).filter(|&k| c.polys[k].degree_bound().is_some()).collect();
+        let k = if !bounded.is_empty() && range(&mut rng, 0, 3) != 0 { bounded[range(&mut rng, 0, bounded.len() - 1)] } else { range(&mut rng, 0, c.polys.len() - 1) };
+        let pk = &c.polys[k];
+        // the only LC shape that may carry a degree bound: one term, coefficient one
+        let lcs = vec![LinearCombination::new("lc0".to_string(), vec![(Fr::from(1u64), pk.label().clone())])];
+        let z = Fr::rand(&mut rng);
+        let mut qs = QuerySet::new();
+        qs.insert(("lc0".to_string(), ("pt".to_string(), z)));
+        let mut ev = Evaluations::new();
+        ev.insert(("lc0".to_string(), z), pk.evaluate(&z));
+        let mut sp = LogSponge::fresh();
+        let proof = match guarded(|| PC::open_combinations(&c.ck, &lcs, &c.polys, &c.comms, &qs, &mut sp, &c.rands, Some(&mut rng.clone()))) {
+            Ok(Ok(p)) => p,
+            other => {
+                ctx.rep.expect_fail(&id, "sonic/lc-honest-refused", &format!("open_combinations refused a single-term LC: {:?}", other.map(|r| r.map(|_| ()).map_err(|e| err_kind(&e)))), replay(&c, &id, ctx.seed, "open_combinations"));
+                continue;
+            }
+        };
+        let run = |comms: &[LC], rng: &mut Rng| -> Outcome3 {
+            let mut vs = LogSponge::fresh();
+            match guarded(|| PC::check_combinations(&c.vk, &lcs, comms, &qs, &ev, &proof, &mut vs, rng)) {
+                Ok(Ok(true)) => Outcome3::Accept,
+                Ok(Ok(false)) => Outcome3::Reject,
+                _ => Outcome3::Refuse,
+            }
+        };
+        let honest = run(&c.comms, &mut rng);
+        if honest != Outcome3::Accept {
+            ctx.rep.expect_fail(&id, "sonic/lc-honest-rejected", &format!("honest single-term LC not accepted: {:?}", honest), replay(&c, &id, ctx.seed, "check_combinations(honest)"));
+        }
+        ctx.rep.case(&format!("{} lc honest term={} out={:?}", c.desc(), pk.label(), honest), Some(format!("sonic-lc/honest/{:?}", pk.degree_bound().is_some())));
+        let relabel = |d: Option<usize>| -> Vec<LC> {
+            c.comms.iter().enumerate().map(|(j, x)| if j == k { LabeledCommitment::new(x.label().clone(), x.commitment().clone(), d) } else { x.clone() }).collect()
+        };
+        let nonzero = c.comms[k].commitment().0 != g1(Fr::from(0u64));
+        // (a) a bound the keys were not trimmed for
+        if let Some((d, cat)) = unenforced_bound(&mut rng, &enforced, c.trap.max_degree) {
+            let out = run(&relabel(Some(d)), &mut rng);
+            if out == Outcome3::Accept {
+                ctx.rep.expect_fail(&format!("{}/unenforced", id), "sonic/false-claim-accepted/lc-BoundRelabelUnenforced", "check_combinations accepted a commitment presented under a bound the keys were not trimmed for", replay(&c, &id, ctx.seed, &format!("bound relabelled to {} ({})", d, cat)));
+            }
+            ctx.rep.count(&format!("sonic/lc-unenforced-{}", cat));
+            ctx.rep.case(&format!("{} lc relabel-unenforced {} ({}) out={:?}", c.desc(), d, cat, out), Some(format!("sonic-lc/unenforced-{}/{:?}", cat, pk.degree_bound().is_some())));
+        }
+        // (b) another enforced bound / an enforced bound on an unbounded commitment / the bound dropped
+        let others: Vec<usize> = enforced.iter().cloned().filter(|d| Some(*d) != pk.degree_bound()).collect();
+        if !others.is_empty() {
+            let d = others[range(&mut rng, 0, others.len() - 1)];
+            let out = run(&relabel(Some(d)), &mut rng);
+            let kind = if pk.degree_bound().is_some() { "BoundRelabel" } else { "BoundAdd" };
+            // the bound D has the shift beta^0, the same G2 element as "no bound"
+            let must = nonzero && !(pk.degree_bound().is_none() && d == c.trap.max_degree);
+            if must && out == Outcome3::Accept {
+                ctx.rep.expect_fail(&format!("{}/{}", id, kind), &format!("sonic/false-claim-accepted/lc-{}", kind), "check_combinations accepted a commitment presented under another degree bound", replay(&c, &id, ctx.seed, &format!("bound {:?} presented as {}", pk.degree_bound(), d)));
+            }
+            ctx.rep.count(&format!("sonic/lc-{}", kind));
+            ctx.rep.case(&format!("{} lc {} -> {} out={:?}", c.desc(), kind, d, out), Some(format!("sonic-lc/{}", kind)));
+        }
+        if let Some(d0) = pk.degree_bound() {
+            let out = run(&relabel(None), &mut rng);
+            if nonzero && d0 != c.trap.max_degree && out == Outcome3::Accept {
+                ctx.rep.expect_fail(&format!("{}/BoundDrop", id), "sonic/false-claim-accepted/lc-BoundDrop", "check_combinations accepted a bounded commitment presented without its bound", replay(&c, &id, ctx.seed, "bound dropped"));
+            }
+            ctx.rep.count("sonic/lc-BoundDrop");
+            ctx.rep.case(&format!("{} lc BoundDrop out={:?}", c.desc(), out), Some("sonic-lc/BoundDrop".to_string()));
+        }
+    }
 }
 
 /// forged proofs together with a false value: honest prover on another polynomial; proof for another point
@@ -349,6 +465,49 @@ fn batch_mutations(ctx: &mut Ctx, prop: &str, n: usize) {
             }
             ctx.rep.count(if pair.is_some() { "sonic/batch-cancel-same-point" } else { "sonic/batch-cancel-across-points" });
             ctx.rep.case(&format!("{} batch cancel out={:?}", c.desc(), out), Some(format!("sonic-batch/{}/{}/cancel{}", npoly, nl, pair.is_some())));
+        }
+        {
+            // challenge-weighted cancelling errors across two point labels: e_a = D/xi_a at one label,
+            // e_b = -D/xi_b at another: the two per-point defects are +-g*h*D and the batch defect is
+            // g*h*D*(rho_1 - 1) != 0: must be rejected
+            let groups = crate::generic::group(&qs);
+            if groups.len() >= 2 {
+                let (_, pt0, l0) = &groups[0];
+                let (_, pt1, l1) = &groups[1];
+                let ka = (l0[0].clone(), *pt0);
+                let kb = (l1[0].clone(), *pt1);
+                let xis = fresh_challenges(qs.len() + groups.len() + 2);
+                let (xa, xb) = (xis[0], xis[1 + l0.len()]);
+                if ka != kb && !xa.is_zero() && !xb.is_zero() {
+                    let id = format!("{}/weighted-cancel", id0);
+                    let dd = rand_nonzero(&mut rng);
+                    let mut ev2 = ev.clone();
+                    *ev2.get_mut(&ka).unwrap() += dd * ark_ff::Field::inverse(&xa).unwrap();
+                    *ev2.get_mut(&kb).unwrap() -= dd * ark_ff::Field::inverse(&xb).unwrap();
+                    let out = batch_check_scalar(ctx, &mut rng, &id, &c, &cs, &qs, &ev2, &ws, &rvs);
+                    if out == Outcome3::Accept {
+                        ctx.rep.expect_fail(&id, "sonic/false-claim-accepted/batch-weighted-cancelling", "errors cancelling under the challenge weights across two point labels accepted", replay(&c, &id, ctx.seed, "challenge-weighted cancelling errors"));
+                    }
+                    ctx.rep.count("sonic/batch-weighted-cancel");
+                    ctx.rep.case(&format!("{} batch weighted-cancel out={:?}", c.desc(), out), Some(format!("sonic-batch/{}/{}/wcancel", npoly, nl)));
+                }
+            }
+            // a queried commitment presented under a bound the keys were not trimmed for: refused
+            let enforced: Vec<usize> = c.ck.enforced_degree_bounds.clone().unwrap_or_default();
+            let queried: Vec<usize> = (0..cs.len()).filter(|&i| qs.iter().any(|q| q.0 == cs[i].label)).collect();
+            let queried_bounded: Vec<usize> = queried.iter().cloned().filter(|&i| cs[i].bound.is_some()).collect();
+            let pool = if queried_bounded.is_empty() { &queried } else { &queried_bounded };
+            if let (Some(&i), Some((d, cat))) = (pool.get(range(&mut rng, 0, pool.len().max(1) - 1)), unenforced_bound(&mut rng, &enforced, c.trap.max_degree)) {
+                let id = format!("{}/relabel-unenforced@{}", id0, i);
+                let mut cs2 = cs.clone();
+                cs2[i].bound = Some(d);
+                let out = batch_check_scalar(ctx, &mut rng, &id, &c, &cs2, &qs, &ev, &ws, &rvs);
+                if out == Outcome3::Accept {
+                    ctx.rep.expect_fail(&id, "sonic/false-claim-accepted/batch-BoundRelabelUnenforced", "batch accepted a commitment presented under a bound the keys were not trimmed for", replay(&c, &id, ctx.seed, &format!("bound relabelled to {} ({})", d, cat)));
+                }
+                ctx.rep.count(&format!("sonic/batch-unenforced-{}", cat));
+                ctx.rep.case(&format!("{} batch relabel-unenforced {} ({}) out={:?}", c.desc(), d, cat, out), Some(format!("sonic-batch/{}/{}/unenforced-{}", npoly, nl, cat)));
+            }
         }
         {
             // value errors at two point labels that cancel EXACTLY under the challenges and the
